@@ -426,4 +426,41 @@ def st_program(ctx: Ctx):
     return st.fixed_dictionaries({"digest": st.sampled_from([1, 2, 8, 8]), "ops": st.tuples(start, prog).map(lambda t: t[0] + t[1])})
 
 
-PARTS = [Part("programs", check_program, strategy=st_program, quick=800, thorough=64000)]
+def enum_deep(ctx: Ctx):
+    for shape in ("one", "items", "child", "mixed"):
+        for factor in ((2, 4) if ctx.thorough else (2,)):
+            for how in ("detach", "detach_self", "drop"):
+                yield {"shape": shape, "factor": factor, "how": how}
+
+
+def check_deep(data: dict, lab: Labels) -> None:
+    """a chain far deeper than the recursion limit: every node is registered; detach() of the top
+    unregisters all of them, detach_self() only the top, dropping the only reference frees all"""
+    from pyoak.node import NODE_REGISTRY, ASTNode
+
+    depth = T.deep_depth(data["factor"])
+    nodes = T.build_chain(depth, data["shape"], og.make_sources())
+    lab.tag("deep-chain", "deep-" + data["how"])
+    lab.sample_class = "deep"
+    ids = [n.id for n in nodes]
+    require(len(set(ids)) == len(ids), "id-not-unique", f"depth {depth}")
+    require(all(ASTNode.get_any(n.id) is n for n in nodes), "lookup-registered", f"depth {depth}")
+    if data["how"] == "detach":
+        nodes[0].detach()
+        left = sum(1 for i in ids if ASTNode.get_any(i) is not None)
+        require(left == 0, "detached-still-returned", f"depth {depth}: {left} of {len(ids)} nodes of a detached tree are still returned")
+    elif data["how"] == "detach_self":
+        require(nodes[0].detach_self() is True, "detach_self-return", "")
+        require(ASTNode.get_any(ids[0]) is None, "detached-still-returned", "top")
+        require(all(ASTNode.get_any(n.id) is n for n in nodes[1:]), "detach_self-unregistered-others", f"depth {depth}")
+    else:
+        del nodes
+        gc.collect()
+        left = sum(1 for i in ids if ASTNode.get_any(i) is not None)
+        require(left == 0 and len(NODE_REGISTRY) == 0, "dropped-nodes-kept-alive", f"depth {depth}: {left} still returned")
+    lab.nontrivial = True
+
+
+PARTS = [Part("programs", check_program, strategy=st_program, quick=800, thorough=64000),
+         Part("deep", check_deep, enumerate=enum_deep,
+              exhaustive_note="4 chain shapes x depth 2x (thorough: and 4x) the recursion limit x {detach, detach_self, drop}")]
